@@ -548,7 +548,7 @@ UNITS += [
          block_tail="",
          functions=["commands::restore::restore_contents (closure turning one (pack, blob) entry of the plan into one read)"],
          rewrites=[
-             Rw(r"fls\s*\.iter\(\)\s*\.find\(\|fl\| fl\.matches\)\s*\.map\(\|fl\| \(fl\.file_idx, fl\.file_start, bl\.data_length\(\)\)\)", "vfirst_matching(&fls, &bl)" + "\n" * 3, regex=True, why="Iterator::find/map with these closure literals -> stub: a matching location, if ANY location matches"),
+             Rw(r"fls\s*\.iter\(\)\s*\.find\(\|fl\| fl\.matches\)\s*\.map\(\|fl\| \(fl\.file_idx, fl\.file_start, (?P<len>[a-z_.]+(?:\(\))?)\)\)", r"vfirst_matching(&fls, \g<len>)" + "\n" * 3, regex=True, why="Iterator::find/map with these closure literals -> stub: a matching location, if ANY location matches"),
              Rw(r"fls\s*\.iter\(\)\s*\.filter\(\|fl\| !fl\.matches\)\s*\.map\(\|fl\| \(fl\.file_idx, fl\.file_start\)\)\s*\.collect\(\)", "vnon_matching_dests(&fls)" + "\n" * 4, regex=True, why="Iterator::filter/map/collect with these closure literals -> stub: all locations that do not match"),
              Rw("PackInfo {", "RPackInfo {", why="renamed: a second PackInfo (prune) lives in the same verification file"),
          ],
@@ -557,6 +557,8 @@ UNITS += [
     ensures
         // the blob is read from the pack exactly when NO destination already holds it (these are the packs to_packs reports for warm-up)
         /*@pack_is_read_iff_no_location_matches*/ r.from_file is None <==> !any_matches(fls.v@),
+        // what is copied from an existing file is the blob's PLAINTEXT (its data length), not its packed length
+        /*@copy_from_existing_file_has_the_plaintext_length*/ r.from_file matches Some(x) ==> x.2 == DLEN(bl),
         /*@read_is_this_blob_of_this_pack*/ r.pack_id == pack_id && r.locations.offset == bl.offset && r.locations.length == bl.length && r.locations.blobs.v@.len() == 1
             && r.locations.blobs.v@[0].0 == bl,
         // every location that does not hold the blob yet gets it
